@@ -188,7 +188,7 @@ func C06(c *core.Ctx) error {
 			err  string
 		}
 		// runOn: stage = 1 runs on the clean tree, stage = 2 on a copy of baseDir (tree holding r1's outputs)
-		runOn := func(choices []int, baseDir string) (obs, []maporder.TracePoint) {
+		runOn := func(choices []int, baseDir string, env ...string) (obs, []maporder.TracePoint) {
 			m, err := c.NewModule(newDir(), files)
 			if err != nil {
 				c.Harness("%v", err)
@@ -198,7 +198,7 @@ func C06(c *core.Ctx) error {
 			if baseDir != "" {
 				core.Run("/", os.Environ(), time.Minute, "", "rsync", "-a", "--delete", baseDir+"/", m.Dir+"/")
 			}
-			o := moRun(c, bin, m.Dir, choices, nil)
+			o := moRun(c, bin, m.Dir, choices, env)
 			snap := core.Snapshot(m.Dir)
 			return obs{o.Res.Exit, core.HashSnapshot(snap), snap, firstN(o.Res.Stderr, 400)}, o.Trace
 		}
@@ -227,10 +227,45 @@ func C06(c *core.Ctx) error {
 					s.name, stage, maporder.ChoicesString(choices), got.exit, want.exit, added, removed, changed, got.err),
 				map[string]any{"scenario": s.name, "stage": stage, "choices": maporder.ChoicesString(choices), "files": files, "env": "VERIF_MO_CHOICES on the binary built from the map-order-instrumented copy of the tree"})
 		}
+		// site-uniform orders: one permutation applied to every visit of one rewritten range statement (and the
+		// all-reversed order); this is the whole quick tier, the thorough tier adds the per-occurrence exploration
+		maxN := map[string]int{}
+		for _, tp := range b.Trace {
+			if tp.N > maxN[tp.Site] {
+				maxN[tp.Site] = tp.N
+			}
+		}
+		type siteOrder struct{ env, name string }
+		orders := []siteOrder{{"VERIF_MO_REVERSE=1", "every map reversed"}}
+		for _, st := range core.SortedKeys(maxN) {
+			for k := 1; k < maporder.Alternatives(maxN[st]); k++ {
+				orders = append(orders, siteOrder{fmt.Sprintf("VERIF_MO_SITE=%s=%d", st, k), fmt.Sprintf("order %d at every visit of %s", k, st)})
+			}
+		}
 		for _, stage := range []string{"run1-clean-tree", "run2-over-own-output"} {
 			baseDir := ""
 			if stage != "run1-clean-tree" {
 				baseDir = baseM.Dir
+			}
+			core.ParallelFor(len(orders), func(oi int) {
+				if c.Expired() {
+					return
+				}
+				got, _ := runOn(nil, baseDir, orders[oi].env)
+				evmu.Lock()
+				c.Ev.Distinct("states", fmt.Sprintf("%d/%s/%s", si, stage, orders[oi].env))
+				devRuns++
+				totalRuns++
+				evmu.Unlock()
+				if got.exit != base.exit || got.hash != base.hash {
+					added, removed, changed := core.DiffSnapshots(base.snap, got.snap)
+					c.Report(fmt.Sprintf("%s:%s:%s", stage, s.name, orders[oi].env),
+						fmt.Sprintf("scenario %q, %s with %s: exit %d (sorted order: %d); files added %v removed %v changed %v; %s", s.name, stage, orders[oi].name, got.exit, base.exit, added, removed, changed, got.err),
+						map[string]any{"scenario": s.name, "stage": stage, "env": orders[oi].env, "files": files})
+				}
+			})
+			if quick {
+				continue
 			}
 			n, trunc := maporder.Explore(maxDev, func(batch [][]int) [][]maporder.TracePoint {
 				traces := make([][]maporder.TracePoint, len(batch))
@@ -310,7 +345,7 @@ func C06(c *core.Ctx) error {
 	c.Ev.Set("map_range_sites_reached", core.SortedKeys(siteSeen))
 	c.Ev.Set("deviation_bound", maxDev)
 	c.Ev.Set("exhaustive", !truncatedAny && !c.Expired())
-	c.Ev.Set("rule", "every range over a map in mockery's own packages is rewritten (scratch copy) to an explorer-chosen permutation (all n! orders for n<=3 keys; identity, reverse, rotations, adjacent transpositions beyond); per scenario all choice lists with at most `deviation_bound` non-sorted choice points are executed on a clean tree (run 1) and on the tree that already holds run 1's output (run 2), then runs 3-4 in place; every execution must have the baseline's exit status and whole-tree content hash; distinct_nontrivial = executions with at least one non-sorted order")
+	c.Ev.Set("rule", "every range over a map in mockery's own packages is rewritten (scratch copy) to an explorer-chosen permutation (all n! orders for n<=3 keys; identity, reverse, rotations, adjacent transpositions beyond); per scenario every site-uniform order (one permutation applied to all visits of one range statement, and all maps reversed) and, in the thorough tier, all choice lists with at most `deviation_bound` non-sorted choice points are executed on a clean tree (run 1) and on the tree that already holds run 1's output (run 2), then runs 3-4 in place; every execution must have the baseline's exit status and whole-tree content hash; distinct_nontrivial = executions with at least one non-sorted order")
 	c.Ev.Assume("map iteration inside third-party libraries (koanf, mapstructure, yaml) is left free; time and process identity are not varied by this check")
 	return nil
 }
